@@ -94,7 +94,9 @@ def num_of(c: str, kind: str):
 def snap_stats(h) -> dict:
     st = h.statistics
     if isnan(st.weight) and isnan(st.sum):
-        return {"valid": False}
+        # invalid statistics must read as NaN in every number: the fields that still carry a number are listed (private key)
+        rest = [f for f in ("sum2", "min", "max") if not isnan(getattr(st, f))]
+        return {"valid": False, "_numbers": rest} if rest else {"valid": False}
     def inf_none(x):
         return None if np.isinf(x) else nrs(x)
     return {"valid": True, "sum": nrs(st.sum), "sum2": nrs(st.sum2), "min": inf_none(st.min),
